@@ -84,7 +84,9 @@ func (cmap Format12) Encode(language uint16) []byte {
 	sort.Slice(keys, func(i, j int) bool { return keys[i] < keys[j] })
 	segStart := 0
 	for i := 1; i < len(keys); i++ {
-		if keys[i] != keys[i-1]+1 || cmap[keys[i]] != cmap[keys[i-1]]+1 {
+		// (a glyph ID of 0 cannot continue a group: the preceding glyph ID
+		// would be 0xFFFF, and the group would assign glyph ID 0x10000)
+		if keys[i] != keys[i-1]+1 || cmap[keys[i]] != cmap[keys[i-1]]+1 || cmap[keys[i]] == 0 {
 			ss = append(ss, format12segment{
 				StartCharCode: keys[segStart],
 				EndCharCode:   keys[i-1],
